@@ -78,6 +78,8 @@ var c04Pool = []kval{
 	{"k_nhtm", func() interface{} { var p *htmler; return p }},               // typed nil pointer implementing HTMLer by value
 	{"k_nids", func() interface{} { var p *IDList; return p }},               // typed nil pointer to a named slice type with a value-receiver method
 	{"k_ids", func() interface{} { return &IDList{1, 2} }},
+	{"k_mb", func() interface{} { return "日本語日本語" }},                                            // multi-byte text
+	{"k_cyr", func() interface{} { return "абвгдежзийклмнопрстуфхцчшщъыьэюя" }},                 // >50 bytes, <50 runes
 	{"k_embid", func() interface{} { return WithNilEmbeddedID{} }},                              // embeds a nil pointer whose type has ID / Slug fields (pathFor)
 	{"k_fnhc", func() interface{} { return func(h NamedHelperContext) string { return "hc" } }}, // parameter convertible to, but not assignable from, plush.HelperContext
 	{"k_fnhc2", func() interface{} {
@@ -101,8 +103,17 @@ func c04Context() *plush.Context {
 		c.Set(k.name, k.mk())
 	}
 	c.Set("partialFeeder", func(name string) (string, error) {
-		if name == "p" {
+		switch name {
+		case "p":
 			return "P<%= k_s %>", nil
+		case "pfor":
+			return `<%= for (v) in k_sl { %><%= v %><% } %>`, nil
+		case "pidx":
+			return `<%= k_pst.Kids[0].Name %><%= k_si[1] %>`, nil
+		case "pchain":
+			return `<%= k_pst.Self().Name %><%= k_pst.GetKids()[0].Name %>`, nil
+		case "pfn":
+			return `<% let g = fn(a) { return a } %><%= g(k_s) %><%= if (k_t) { %>y<% } %>`, nil
 		}
 		return "", fmt.Errorf("no partial %q", name)
 	})
@@ -165,7 +176,7 @@ func init() {
 			return s
 		},
 		Run:  c04Run,
-		Rule: "matrices over a pool of 59 injected value kinds (nil, bools, every int/uint/float width, strings, HTML, slices/arrays/pointers to them, maps of 5 key/value typings, nil map/slice/pointer/func, struct, funcs incl. variadic, iterator, chan, time, error) plus 11 expression-produced kinds (user function object, its call, slice+x, array/hash literal, literals, unknown identifier): (operator x L x R), !L / if(L) / emission / silent statement, L[I] (+ .Field/.Method tails), L[I]=V (all triples), member and method access incl. nil receivers, for over L, L(args<=3), user functions with p params x a args (0..4), and every built-in helper taken from plush.Helpers at run time x argument lists of length <=2 (+block, +options map). Oracle: (out,nil) or (\"\",err); no panic, no step-budget exhaustion, no worker crash. All cases are non-trivial (each is a distinct kind combination).",
+		Rule: "matrices over a pool of 61 injected value kinds (nil, bools, every int/uint/float width, strings, HTML, slices/arrays/pointers to them, maps of 5 key/value typings, nil map/slice/pointer/func, struct, funcs incl. variadic, iterator, chan, time, error) plus 11 expression-produced kinds (user function object, its call, slice+x, array/hash literal, literals, unknown identifier): (operator x L x R), !L / if(L) / emission / silent statement, L[I] (+ .Field/.Method tails), L[I]=V (all triples), member and method access incl. nil receivers, for over L, L(args<=3), user functions with p params x a args (0..4), and every built-in helper taken from plush.Helpers at run time x argument lists of length <=2 (+block, +options map). Oracle: (out,nil) or (\"\",err); no panic, no step-budget exhaustion, no worker crash. All cases are non-trivial (each is a distinct kind combination).",
 		Bound: func(th bool) string {
 			if th {
 				return "all matrices complete; plus one level of nesting (L op R) op' X for every operator pair over the pool"
@@ -208,6 +219,11 @@ func c04Run(t *engine.T, shard string) {
 			c04Case(t, "hash", P+`<%= {"a": `+l+`} %>`)
 			c04Case(t, "paren", P+`<%= (`+l+`) %>`)
 			c04Case(t, "neg", P+`<%= -`+l+` %>`)
+		}
+		// every construct class inside a partial body (the partial runs on its own evaluator/context)
+		for _, pn := range []string{"p", "pfor", "pidx", "pchain", "pfn"} {
+			c04Case(t, "partial-body", P+`<%= partial("`+pn+`") %>|<%= partial("`+pn+`", {"k_s": "z"}) %>|<%= partial("`+pn+`", {"layout": "p"}) %>`)
+			c04Case(t, "partial-body-in-for", P+`<%= for (q) in k_sl { %><%= partial("`+pn+`") %><% } %>`)
 		}
 	case "index":
 		for _, l := range atoms {
